@@ -267,9 +267,10 @@ Qed.
 Theorem expand_constraint_roundtrip G cs xs :
   ne_expand_constraints G cs = NE_Ok xs -> map ne_condense_constraint xs = cs.
 Proof.
-  unfold ne_expand_constraints. destruct cs as [|[|[v|u v] c0] cs]; intros H.
-  - now injection H as <-.
-  - discriminate.
+  unfold ne_expand_constraints. destruct cs as [|c0 cs']; intros H; [now injection H as <-|].
+  destruct (existsb _ (c0 :: cs')); [discriminate|].
+  remember (c0 :: cs') as cs eqn:Ecs. clear Ecs cs'.
+  destruct c0 as [|[v|u v] c0]; [discriminate| |].
   - apply mapM_ok_inv in H. induction H as [|c x cs' xs' Hc H IH]; [reflexivity|].
     cbn [map]. rewrite IH. apply cons_nodes_roundtrip in Hc. destruct Hc as [H1 [H2 _]].
     unfold ne_condense_constraint. now rewrite H2, H1.
@@ -278,6 +279,16 @@ Proof.
     unfold ne_condense_constraint. destruct c as [|el c].
     + now rewrite (H4 eq_refl).
     + rewrite H2 by congruence. now rewrite H1.
+Qed.
+
+(* an empty constraint anywhere in the list is rejected with ValueError (never IndexError, never silently expanded) *)
+Theorem expand_constraints_rejects_empty G cs :
+  In [] cs -> ne_expand_constraints G cs = NE_Err NE_ValueError.
+Proof.
+  intros H. unfold ne_expand_constraints. destruct cs as [|c0 cs']; [destruct H|].
+  assert (E : existsb (fun c : list ne_elem => match c with [] => true | _ => false end) (c0 :: cs') = true)
+    by (apply existsb_exists; exists []; auto).
+  now rewrite E.
 Qed.
 
 (* ------------------------------------------------------------------ edges_to_ignore: the exact list *)
